@@ -39,6 +39,8 @@ var iterRequired = []string{
 	"map:stop:pos=first", "map:stop:pos=second", "map:stop:pos=middle", "map:stop:pos=last", "map:stop:pos=never",
 	"map:obj:mut", "map:obj:ro", "map:obj:loaded", "map:obj:beyond-end", "map:obj:loaded:partial",
 	"map:obj:call=N", "map:obj:call=K", "map:obj:call=V", "map:obj:empty",
+	"map:digestMode=5", "map:boundary:first-level-digest=0", "map:boundary:first-level-digest=max",
+	"map:shape:slab-starts-with-group", "map:shape:slab-ends-with-inline-group", "map:shape:last-level-list",
 }
 
 // stopPos draws a stop position for an enumeration of n elements and names it.
